@@ -163,6 +163,19 @@ func runAlias(line []byte, rec *recorder) {
 	// one more instance reads DVB tables of every kind carrying descriptors of every tag: each retained byte slice of each parser
 	streams = append(streams, richStream(r, 24))
 	n++
+	// ... and one reads units of more than 64 KB (unbounded video PES of 70 000 bytes) followed by small ones: what was returned for the large
+	// unit stays what it was while the next units are assembled
+	{
+		var big []byte
+		cc := 0
+		for u := 0; u < 4; u++ {
+			unit := append([]byte{0, 0, 1, 0xe0, 0, 0, 0x80, 0, 0}, r.bytes([]int{70000, 300, 66000, 50}[u])...)
+			big = append(big, packetise(0x200, unit, cc)...)
+			cc += (len(unit) + 183) / 184
+		}
+		streams = append(streams, big)
+		n++
+	}
 	var events []M
 	events = append(events, M{"ev": "reset", "t": sc.SID, "kind": "alias", "streams": n})
 	// independence of instances used one after the other: tiny inputs (where packet-size detection sees less than its whole window)
